@@ -313,6 +313,11 @@ class Plan:
             self.do(("ExitHolding", c, "ServerError", True))
             self.gone_expected += 1
             self.replies.append((nm, it["tag"], "server_error"))
+        elif k == "hcfail":
+            # pool.rs get(): the health check `;` times out: mark_bad, the guard is dropped inside get() (closed, slot freed),
+            # no candidate left: the client gets a pool error at once and stays at the outer loop
+            self.do(("TxnEndRelease", c, True))
+            self.replies.append((nm, it["tag"], "pool_error"))
 
     def settle(self):
         progress = True
@@ -348,6 +353,9 @@ class Plan:
         self.obs.append(o)
         self.last_tag_at.append(dict(self.begin_tag))
 
+    def arm_slow_healthcheck(self, on=True):
+        self.steps.append({"op": "backend", "b": "b0", "slow_exact": {"sql": ";", "ms": 600 if on else 0, "count": 1 if on else 0}})
+
     def pause(self):
         self.steps += [{"op": "wait_inuse", "n": len(self.m.held), "timeout_ms": 2500}, {"op": "sleep", "ms": 20}]
 
@@ -362,6 +370,8 @@ class Plan:
             msgs = [{"t": "Q", "sql": "SELECT 1 /*mock: error*/ /*%s*/" % t}]
         elif kind == "srvclose":
             msgs = [{"t": "Q", "sql": "SELECT 1 /*mock: close*/ /*%s*/" % t}]
+        elif kind == "hcfail":
+            msgs = [{"t": "Q", "sql": "SELECT 1 /*%s*/" % t}]
         elif kind == "intercept":
             msgs = [{"t": "P", "name": "", "sql": "select 42 as a"}, {"t": "B", "portal": "", "name": ""}, {"t": "E", "portal": "", "max": 0}, {"t": "S"}]
         elif kind == "copy_out":
@@ -491,7 +501,7 @@ class Plan:
                     self.failed.add(c)
         elif kind == "abort":
             self.steps.append({"op": "close", "c": nm})
-            if deadsrv and ph == "InTxn" and not copying:
+            if deadsrv and (ph == "InTxn" or c in self.dirty) and not copying:   # checkin_cleanup has something to send, to a dead server
                 self.do(("ExitHolding", c, "CleanupErr", True))
             else:
                 # a server in COPY mode cannot be cleaned up: checkin_cleanup marks it bad (server.rs checkin_cleanup)
@@ -500,7 +510,7 @@ class Plan:
             self.incopy.pop(c, None)
         elif kind == "X":
             send([{"t": "X"}]); self.steps.append({"op": "close", "c": nm})
-            if deadsrv and ph == "InTxn" and not copying:
+            if deadsrv and (ph == "InTxn" or c in self.dirty) and not copying:   # checkin_cleanup has something to send, to a dead server
                 self.do(("ExitHolding", c, "CleanupErr", True))
             else:
                 self.do(("ExitHolding", c, "XTerminate", copying))
@@ -570,6 +580,14 @@ class Plan:
             if s not in self.m.dead:
                 self.do(("ConnDied", s))
 
+    def reset(self):
+        """the database host resets (TCP RST, SO_LINGER 0) every connection it has with the pooler; the listener stays up.
+        For the pool a reset connection is a dead one: the first use fails (in send() already), that marks it bad, it is dropped."""
+        self.steps += [{"op": "backend", "b": "b0", "reset_sessions": True}, {"op": "sleep", "ms": 70}]
+        for s in sorted(set(self.m.idleq) | {s for s, _ in self.m.held}):
+            if s not in self.m.dead:
+                self.do(("ConnDied", s))
+
     # ---- random walk
     def choices(self):
         m, cfg = self.m, self.cfg
@@ -612,7 +630,7 @@ class Plan:
                 if cfg["plugin"]:
                     out += [("first", c, "intercept")]
         if cfg.get("blips") and not m.waiters and not m.woken and m.pending == 0 and m.num > len(m.dead):
-            out += [("blip",)] * 2
+            out += [("blip",), ("reset",), ("reset",)]
         return out
 
     def walk(self, nactions):
@@ -633,6 +651,8 @@ class Plan:
                 self.outer(a[1], a[2])
             elif a[0] == "blip":
                 self.blip()
+            elif a[0] == "reset":
+                self.reset()
             if self.m.waiters and self.cfg["connect_timeout"] < 1000:
                 self.observe(lab + "w")
                 self.timeout_waiters()
@@ -689,7 +709,16 @@ def make_toml(cfg):
     user = {"pool_size": cfg["pool_size"]}
     if cfg.get("statement_timeout"):
         user["statement_timeout"] = cfg["statement_timeout"]
-    opts = {"pool_mode": "session" if cfg["session"] else "transaction", "query_parser_enabled": bool(cfg["plugin"])}
+    mode = "session" if cfg["session"] else "transaction"
+    opts = {"pool_mode": mode, "query_parser_enabled": bool(cfg["plugin"])}
+    if cfg.get("user_mode_override"):
+        # the pool says the opposite; the user-level setting is the one that counts (pool.rs from_config: user.pool_mode first)
+        opts["pool_mode"] = "transaction" if cfg["session"] else "session"
+        user["pool_mode"] = mode
+    elif cfg.get("user_mode_same"):
+        user["pool_mode"] = mode
+    if cfg.get("hc"):
+        general.update({"healthcheck_delay": 0, "healthcheck_timeout": 250})
     if cfg.get("checkout_failure_limit"):
         opts["checkout_failure_limit"] = cfg["checkout_failure_limit"]
     if cfg.get("cache"):
@@ -914,6 +943,11 @@ def gen_plans(run, quick):
                 c["blips"] = True
             if rng.random() < 0.4:
                 c["cache"] = True
+            u = rng.random()
+            if u < 0.35:
+                c["user_mode_override"] = True
+            elif u < 0.45:
+                c["user_mode_same"] = True
             n = rng.randint(max(2, c["pool_size"]), 2 * c["pool_size"] + 1)
             if rng.random() < 0.4:
                 n = 2 * c["pool_size"] + 1
@@ -970,6 +1004,53 @@ def scripted_plans(run):
             p.first_message(1, kind); p.observe("r3", {"inuse_must_be": 0})              # second use (statement cache hit when caching is on)
             p.first_message(0, kind); p.observe("r4", {"inuse_must_be": 0})
             p.finish(); out.append(p)
+    # the database host resets idle server connections (TCP RST): each is broken on its first use and replaced; capacity stays usable
+    for ps, fifo in ((1, False), (2, False), (2, True)):
+        p = Plan({"pool_size": ps, "session": False, "fifo": fifo, "connect_timeout": 300, "plugin": False}, rng, ps + 3)
+        p.actions = ["reset-idle"]
+        for c in range(ps):
+            p.first_message(c, "begin")
+        p.observe("x0")
+        for c in range(ps):
+            p.in_txn(c, "commit"); p.pause()
+        p.observe("x1", {"inuse_must_be": 0})
+        p.reset(); p.observe("x2", {"inuse_must_be": 0})
+        for c in range(ps):                      # one client fails on each reset connection, once
+            p.first_message(c, "single"); p.observe("x3_%d" % c, {"inuse_must_be": 0})
+        for c in range(ps, ps + 3):              # everybody after that is served by fresh connections
+            p.first_message(c, "single"); p.observe("x4_%d" % c, {"inuse_must_be": 0})
+        p.finish(); out.append(p)
+    # user-level pool_mode overrides the pool's, both directions: 3 clients taking turns on a pool of 1
+    p = Plan({"pool_size": 1, "session": False, "fifo": False, "connect_timeout": 300, "plugin": False, "user_mode_override": True}, rng, 3)
+    p.actions = ["user-mode:transaction-over-session"]
+    for r in range(2):
+        for c in range(3):
+            p.first_message(c, "single"); p.observe("m%d_%d" % (r, c), {"inuse_must_be": 0})
+    p.finish(); out.append(p)
+    p = Plan({"pool_size": 1, "session": True, "fifo": False, "connect_timeout": 300, "plugin": False, "user_mode_override": True}, rng, 3)
+    p.actions = ["user-mode:session-over-transaction"]
+    p.first_message(0, "single"); p.observe("n0", {"inuse_must_be": 1})        # session mode: keeps its server
+    p.first_message(1, "single"); p.observe("n1w"); p.timeout_waiters(); p.settle(); p.observe("n1", {"inuse_must_be": 1})
+    p.in_txn(0, "X"); p.observe("n2", {"inuse_must_be": 0})
+    p.first_message(1, "single"); p.observe("n3", {"inuse_must_be": 1})
+    p.first_message(2, "single"); p.observe("n4w"); p.timeout_waiters(); p.settle(); p.observe("n4", {"inuse_must_be": 1})
+    p.finish(); out.append(p)
+    # a health check that times out at checkout closes that connection; the client is refused at once, stays usable, capacity comes back
+    for ps in (1, 2):
+        p = Plan({"pool_size": ps, "session": False, "fifo": False, "connect_timeout": 6000, "plugin": False, "hc": True}, rng, 3)
+        p.actions = ["healthcheck-timeout"]
+        p.first_message(0, "single"); p.observe("h0", {"inuse_must_be": 0})
+        p.arm_slow_healthcheck(); p.first_message(0, "hcfail"); p.arm_slow_healthcheck(False)
+        p.observe("h1", {"inuse_must_be": 0})
+        p.first_message(1, "single"); p.observe("h2", {"inuse_must_be": 0})       # fresh connection
+        p.first_message(0, "begin"); p.observe("h3", {"inuse_must_be": 1})        # the refused client is usable
+        # (a waiter that is handed a connection the instant it is released gets no health check: last_activity is < 1 ms old)
+        p.in_txn(0, "commit"); p.observe("h5", {"inuse_must_be": 0})
+        p.arm_slow_healthcheck(); p.first_message(1, "hcfail"); p.arm_slow_healthcheck(False)
+        p.observe("h5b", {"inuse_must_be": 0})
+        p.first_message(2, "begin"); p.observe("h6", {"inuse_must_be": 1})
+        p.in_txn(2, "commit"); p.observe("h7", {"inuse_must_be": 0})
+        p.finish(); out.append(p)
     # checkout_failure_limit: the second failed checkout ends the client task; nothing is held by it
     p = Plan({"pool_size": 1, "session": False, "fifo": False, "connect_timeout": 300, "plugin": False, "checkout_failure_limit": 2}, rng, 2)
     p.actions = ["failure_limit"]
@@ -1262,7 +1343,7 @@ def check(run):
         evals += len(p.obs)
         for a in p.actions:
             a = tuple(a) if isinstance(a, (list, tuple)) else (a,)
-            key = a[0] if a[0] in ("blip", "timeout", "abandon", "rotation", "f14", "down", "failure_limit") or str(a[0]).startswith(("copy:", "release:")) else (a[0], a[-1])
+            key = a[0] if a[0] in ("blip", "reset", "timeout", "abandon", "rotation", "f14", "down", "failure_limit") or str(a[0]).startswith(("copy:", "release:", "reset-", "user-mode", "healthcheck")) else (a[0], a[-1])
             hist[str(key)] = hist.get(str(key), 0) + 1
         for k, o in enumerate(p.ops):
             distinct.add((p.cfg["pool_size"], p.cfg["session"], p.cfg["fifo"], tuple(o[:1] + o[2:]) if len(o) > 2 else o[:1], canon_view(views[k][1])[0:2], len(views[k][1][3][0])))
@@ -1345,10 +1426,10 @@ def check(run):
     run.cov["scenarios"] = len(plans)
     run.cov["model_ops"] = sum(len(p.ops) for p in plans)
     run.cov["observation_points"] = sum(len(p.obs) for p in plans)
-    run.cov["rule"] = ("scenarios = 25 scripted corner cases (wait-list rotation on a closed connection under LIFO and FIFO, the F14 regression case with pool 1 and 2, COPY FROM STDIN ended by CopyDone / CopyFail / a server error x statement cache on/off with a waiter, COPY TO STDOUT (small, > 8196 bytes) / lone Sync / named Close / named Parse (cache hit) with a waiter, checkout_failure_limit, backend refusing connections + connect timeout + recovery) "
+    run.cov["rule"] = ("scenarios = 32 scripted corner cases (wait-list rotation on a closed connection under LIFO and FIFO, the F14 regression case with pool 1 and 2, idle server connections reset by the database host (TCP RST) with pool 1 and 2, user-level pool_mode overriding the pool's in both directions (3 clients taking turns on a pool of 1), a health check that times out at checkout (healthcheck_delay 0, healthcheck_timeout 250, `;` answered after 600 ms), COPY FROM STDIN ended by CopyDone / CopyFail / a server error x statement cache on/off with a waiter, COPY TO STDOUT (small, > 8196 bytes) / lone Sync / named Close / named Parse (cache hit) with a waiter, checkout_failure_limit, backend refusing connections + connect timeout + recovery) "
                        "+ seeded random walks over {pool_size 1,2,3} x {transaction, session} x {LIFO, FIFO} x {connect_timeout 6000 ms, 300 ms}, up to 2*pool_size+1 clients, "
-                       "actions chosen among those the model allows in the current state (BEGIN / single statement / COPY FROM STDIN (then CopyDone, CopyFail, socket close; the server may abort it) / COPY TO STDOUT / lone Sync / Close+Sync / Parse+Sync, statement cache on in 40% of the worlds / statement error / intercepted batch / COMMIT / statement inside a transaction / "
-                       "socket close idle, inside a transaction, while waiting / Terminate / malformed Close / server closes mid-query / server closes after half a reply / statement timeout / backend blip / waiter timeout); "
+                       "actions chosen among those the model allows in the current state (BEGIN / single statement / COPY FROM STDIN (then CopyDone, CopyFail, socket close; the server may abort it) / COPY TO STDOUT / lone Sync / Close+Sync / Parse+Sync, statement cache on in 40% of the worlds, user-level pool_mode set in 45% of the worlds (35% contradicting the pool's) / statement error / intercepted batch / COMMIT / statement inside a transaction / "
+                       "socket close idle, inside a transaction, while waiting / Terminate / malformed Close / server closes mid-query / server closes after half a reply / statement timeout / backend blip (refuse + graceful close) / abortive reset of every server connection / waiter timeout); "
                        "plus one replica-only world (default_role replica, every replica banned, must be reopened at the next checkout); every scenario ends with everybody leaving and a probe of pool_size simultaneous transactions.  evaluations = model ops compared planner-vs-Coq + observation points compared Coq-vs-pgcat; "
                        "distinct = distinct (pool_size, mode, strategy, op kind, (connections, pending) after the op, waiters) tuples")
     run.cov["samples"] = samples
